@@ -53,9 +53,55 @@ theorem pot_drop (f : Node → Nat) (seen : List Node) (v : Node) (l : List Node
 def WF (cfg : Cfg) : Prop :=
   (∀ b ∈ cfg.recips, b ∈ cfg.nodes) ∧ ∀ a, ∀ b ∈ cfg.fwd a, b ∈ cfg.nodes
 
-/-- copies in flight + (forwarding degree + 1) of every node that has not seen the message -/
+/-- potential of the messages awaiting a verdict -/
+def heldPot (f : Node → Nat) : HeldT → Nat
+  | [] => 0
+  | h :: l => f h.1 + heldPot f l
+
+theorem heldPot_noteDup (f : Node → Nat) (held : HeldT) (v u : Node) :
+    heldPot f (noteDup held v u) = heldPot f held := by
+  induction held with
+  | nil => rfl
+  | cons h l ih =>
+    simp only [noteDup, List.map_cons, heldPot] at ih ⊢
+    rw [ih]
+    split <;> rfl
+
+theorem heldPot_filter_le (f : Node → Nat) (held : HeldT) (v : Node) :
+    heldPot f (held.filter fun h => h.1 != v) ≤ heldPot f held := by
+  induction held with
+  | nil => simp [heldPot]
+  | cons h l ih =>
+    simp only [List.filter_cons]
+    split <;> simp only [heldPot] <;> omega
+
+theorem heldPot_drop (f : Node → Nat) (held : HeldT) (v : Node) (x : Node × List Node)
+    (hm : (v, x) ∈ held) :
+    heldPot f (held.filter fun h => h.1 != v) + f v ≤ heldPot f held := by
+  induction held with
+  | nil => cases hm
+  | cons h l ih =>
+    simp only [List.filter_cons]
+    by_cases hk : h.1 = v
+    · have hb : (h.1 != v) = false := by simpa using hk
+      have := heldPot_filter_le f l v
+      simp only [hb, Bool.false_eq_true, if_false, heldPot]
+      rw [hk]
+      omega
+    · have hb : (h.1 != v) = true := by simpa using hk
+      have hm' : (v, x) ∈ l := by
+        rcases List.mem_cons.1 hm with e | hm
+        · exact absurd (by rw [← e]) hk
+        · exact hm
+      have := ih hm'
+      simp only [hb, heldPot, if_true]
+      omega
+
+/-- copies in flight + (forwarding degree + 1) of every node that has not seen the message or
+holds it for validation -/
 def mu (cfg : Cfg) (s : State) : Nat :=
   s.flight.length + pot (fun a => (cfg.fwd a).length + 1) s.seen cfg.nodes
+    + heldPot (fun a => (cfg.fwd a).length + 1) s.held
 
 theorem Inv.flight_node {cfg : Cfg} {s : State} (h : Inv cfg s) (hw : WF cfg) {a b : Node}
     (hab : (a, b) ∈ s.flight) : b ∈ cfg.nodes := by
@@ -63,86 +109,162 @@ theorem Inv.flight_node {cfg : Cfg} {s : State} (h : Inv cfg s) (hw : WF cfg) {a
   · exact hw.1 b hb
   · exact hw.2 a b (mem_recipients.1 hb).1
 
-/-- every effective reception strictly decreases the measure -/
-theorem mu_decreases {cfg : Cfg} {s : State} (hw : WF cfg) (hi : Inv cfg s) (l : Node × Node)
-    (he : (recv cfg s l).2 ≠ .noflight) : mu cfg (recv cfg s l).1 < mu cfg s := by
-  obtain ⟨u, v⟩ := l
-  rcases recv_cases cfg s u v with ⟨_, e⟩ | ⟨hf, _, e⟩ | ⟨hf, _, _, e⟩ | ⟨hf, _, hns, e⟩
-  · rw [e] at he; exact absurd rfl he
-  · rw [e]; simp only [mu]
-    have := List.length_erase_of_mem hf
-    have := List.length_pos_of_mem hf
-    omega
-  · rw [e]; simp only [mu]
-    have := List.length_erase_of_mem hf
-    have := List.length_pos_of_mem hf
-    omega
-  · rw [e]; simp only [mu, List.length_append, List.length_map]
-    have h1 := List.length_erase_of_mem hf
-    have h2 := List.length_pos_of_mem hf
-    have h3 := recipients_length_le cfg v u
-    have h4 : pot (fun a => (cfg.fwd a).length + 1) (v :: s.seen) cfg.nodes
-        + ((cfg.fwd v).length + 1) ≤ pot (fun a => (cfg.fwd a).length + 1) s.seen cfg.nodes :=
-      pot_drop (fun a => (cfg.fwd a).length + 1) s.seen v cfg.nodes (hi.flight_node hw hf) hns
-    omega
+/-- an output that consumed a copy in flight or a pending verdict -/
+def Out.effective : Out → Bool
+  | .noflight => false
+  | .noheld => false
+  | _ => true
 
-/-- number of effective receptions in an output list -/
+/-- every effective step strictly decreases the measure -/
+theorem mu_decreases {cfg : Cfg} {s : State} (hw : WF cfg) (hi : Inv cfg s) (op : Op)
+    (he : (step cfg s op).2.effective = true) : mu cfg (step cfg s op).1 < mu cfg s := by
+  cases op with
+  | recv u v =>
+    simp only [step] at he ⊢
+    rcases recv_cases cfg s u v with ⟨_, e⟩ | ⟨hf, _, e⟩ | ⟨hf, _, _, e⟩ | ⟨hf, _, hns, _, e⟩ |
+      ⟨hf, _, hns, e⟩
+    · rw [e] at he; simp [Out.effective] at he
+    · rw [e]; simp only [mu]
+      have := List.length_erase_of_mem hf
+      have := List.length_pos_of_mem hf
+      omega
+    · rw [e]; simp only [mu, heldPot_noteDup]
+      have := List.length_erase_of_mem hf
+      have := List.length_pos_of_mem hf
+      omega
+    · rw [e]; simp only [mu, heldPot]
+      have h1 := List.length_erase_of_mem hf
+      have h2 := List.length_pos_of_mem hf
+      have h4 : pot (fun a => (cfg.fwd a).length + 1) (v :: s.seen) cfg.nodes
+          + ((cfg.fwd v).length + 1) ≤ pot (fun a => (cfg.fwd a).length + 1) s.seen cfg.nodes :=
+        pot_drop (fun a => (cfg.fwd a).length + 1) s.seen v cfg.nodes (hi.flight_node hw hf) hns
+      omega
+    · rw [e]; simp only [mu, List.length_append, List.length_map]
+      have h1 := List.length_erase_of_mem hf
+      have h2 := List.length_pos_of_mem hf
+      have h3 := recipients_length_le cfg v u
+      have h4 : pot (fun a => (cfg.fwd a).length + 1) (v :: s.seen) cfg.nodes
+          + ((cfg.fwd v).length + 1) ≤ pot (fun a => (cfg.fwd a).length + 1) s.seen cfg.nodes :=
+        pot_drop (fun a => (cfg.fwd a).length + 1) s.seen v cfg.nodes (hi.flight_node hw hf) hns
+      omega
+  | verdict v a =>
+    simp only [step] at he ⊢
+    rcases verdict_cases cfg s v a with ⟨_, e⟩ | ⟨u, orig, hl, _, e⟩ | ⟨u, orig, hl, _, e⟩
+    · rw [e] at he; simp [Out.effective] at he
+    · rw [e]; simp only [mu, List.length_append, List.length_map]
+      have h3 := recipientsV_length_le cfg v u orig
+      have h4 : heldPot (fun a => (cfg.fwd a).length + 1) (s.held.filter fun h => h.1 != v)
+          + ((cfg.fwd v).length + 1) ≤ heldPot (fun a => (cfg.fwd a).length + 1) s.held :=
+        heldPot_drop (fun a => (cfg.fwd a).length + 1) s.held v (u, orig) (lookup_mem hl)
+      omega
+    · rw [e]; simp only [mu]
+      have h4 : heldPot (fun a => (cfg.fwd a).length + 1) (s.held.filter fun h => h.1 != v)
+          + ((cfg.fwd v).length + 1) ≤ heldPot (fun a => (cfg.fwd a).length + 1) s.held :=
+        heldPot_drop (fun a => (cfg.fwd a).length + 1) s.held v (u, orig) (lookup_mem hl)
+      omega
+
+/-- number of effective steps in an output list -/
 def effCount : List Out → Nat
   | [] => 0
-  | o :: os => (if o = .noflight then 0 else 1) + effCount os
+  | o :: os => (if o.effective then 1 else 0) + effCount os
 
-theorem eff_bound {cfg : Cfg} (hw : WF cfg) (sched : List (Node × Node)) :
+theorem step_ineffective {cfg : Cfg} {s : State} (op : Op)
+    (he : (step cfg s op).2.effective = false) : (step cfg s op).1 = s := by
+  cases op with
+  | recv u v =>
+    simp only [step] at he ⊢
+    rcases recv_cases cfg s u v with ⟨_, e⟩ | ⟨_, _, e⟩ | ⟨_, _, _, e⟩ | ⟨_, _, _, _, e⟩ |
+      ⟨_, _, _, e⟩
+    · rw [e]
+    all_goals (rw [e] at he; simp [Out.effective] at he)
+  | verdict v a =>
+    simp only [step] at he ⊢
+    rcases verdict_cases cfg s v a with ⟨_, e⟩ | ⟨u, orig, _, _, e⟩ | ⟨u, orig, _, _, e⟩
+    · rw [e]
+    all_goals (rw [e] at he; simp [Out.effective] at he)
+
+theorem eff_bound {cfg : Cfg} (hw : WF cfg) (sched : List Op) :
     ∀ s, Inv cfg s →
-      effCount (Machine.run (recv cfg) s sched).2 + mu cfg (Machine.exec (recv cfg) s sched)
+      effCount (Machine.run (step cfg) s sched).2 + mu cfg (Machine.exec (step cfg) s sched)
         ≤ mu cfg s := by
   induction sched with
   | nil => intro s _; simp [Machine.run, Machine.exec, effCount]
   | cons l rest ih =>
     intro s hi
-    have hi' := inv_recv l hi
+    have hi' := inv_step l hi
     have := ih _ hi'
     simp only [Machine.run, Machine.exec, List.foldl, effCount] at this ⊢
-    by_cases he : (recv cfg s l).2 = .noflight
-    · have hs : (recv cfg s l).1 = s := by
-        obtain ⟨u, v⟩ := l
-        rcases recv_cases cfg s u v with ⟨_, e⟩ | ⟨_, _, e⟩ | ⟨_, _, _, e⟩ | ⟨_, _, _, e⟩
-        · rw [e]
-        all_goals (rw [e] at he; cases he)
+    cases he : (step cfg s l).2.effective with
+    | false =>
+      have hs := step_ineffective l he
       rw [hs] at this
-      simp only [he, if_true]
+      simp only [Bool.false_eq_true, if_false]
       rw [hs]
       omega
-    · have := mu_decreases hw hi l he
-      simp only [he, if_false]
+    | true =>
+      have := mu_decreases hw hi l he
+      simp only [if_true]
       omega
 
-/-- from every reachable state some schedule of at most `mu` receptions reaches quiescence -/
+/-- from every reachable state some schedule of at most `mu` steps (deliver what is in flight,
+accept what is held) reaches quiescence -/
 theorem quiescence_reachable {cfg : Cfg} (hw : WF cfg) :
     ∀ (n : Nat) (s : State), Inv cfg s → mu cfg s ≤ n →
-      ∃ sched, sched.length ≤ n ∧ (Machine.exec (recv cfg) s sched).flight = [] := by
+      ∃ sched, sched.length ≤ n ∧ (Machine.exec (step cfg) s sched).flight = [] ∧
+        (Machine.exec (step cfg) s sched).held = [] ∧
+        (Machine.exec (step cfg) s sched).dropped = s.dropped := by
   intro n
   induction n with
   | zero =>
     intro s _ hm
-    refine ⟨[], Nat.le_refl _, ?_⟩
-    simp only [Machine.exec, List.foldl]
-    have : s.flight.length = 0 := by simp only [mu] at hm; omega
-    exact List.eq_nil_of_length_eq_zero this
+    refine ⟨[], Nat.le_refl _, ?_, ?_, rfl⟩
+    · simp only [Machine.exec, List.foldl]
+      have : s.flight.length = 0 := by simp only [mu] at hm; omega
+      exact List.eq_nil_of_length_eq_zero this
+    · simp only [Machine.exec, List.foldl]
+      cases hh : s.held with
+      | nil => rfl
+      | cons h l =>
+        simp only [mu, hh, heldPot] at hm
+        omega
   | succ n ih =>
     intro s hi hm
     cases hfl : s.flight with
-    | nil => exact ⟨[], Nat.zero_le _, by simp [Machine.exec, hfl]⟩
+    | nil =>
+      cases hh : s.held with
+      | nil => exact ⟨[], Nat.zero_le _, by simp [Machine.exec, hfl], by simp [Machine.exec, hh], rfl⟩
+      | cons h rest =>
+        obtain ⟨v, u, orig⟩ := h
+        have hl : s.held.lookup v = some (u, orig) := by simp [hh, List.lookup]
+        have hstep : (step cfg s (.verdict v .accept)).2.effective = true ∧
+            (step cfg s (.verdict v .accept)).1.dropped = s.dropped := by
+          simp only [step]
+          rcases verdict_cases cfg s v .accept with ⟨hn, _⟩ | ⟨u', o', _, _, e⟩ | ⟨_, _, _, hna, _⟩
+          · rw [hl] at hn; cases hn
+          · rw [e]; exact ⟨rfl, rfl⟩
+          · exact absurd rfl hna
+        have hd := mu_decreases hw hi (.verdict v .accept) hstep.1
+        obtain ⟨sched, hlen, hq, hq2, hq3⟩ := ih _ (inv_step (.verdict v .accept) hi) (by omega)
+        exact ⟨.verdict v .accept :: sched, by simp only [List.length_cons]; omega,
+          by simpa [Machine.exec, List.foldl] using hq,
+          by simpa [Machine.exec, List.foldl] using hq2,
+          by simpa [Machine.exec, List.foldl, hstep.2] using hq3⟩
     | cons l rest =>
-      have hmem : l ∈ s.flight := by rw [hfl]; exact List.mem_cons_self
-      have he : (recv cfg s l).2 ≠ .noflight := by
-        obtain ⟨u, v⟩ := l
-        rcases recv_cases cfg s u v with ⟨hn, _⟩ | ⟨_, _, e⟩ | ⟨_, _, _, e⟩ | ⟨_, _, _, e⟩
+      obtain ⟨u, v⟩ := l
+      have hmem : (u, v) ∈ s.flight := by rw [hfl]; exact List.mem_cons_self
+      have hstep : (step cfg s (.recv u v)).2.effective = true ∧
+          (step cfg s (.recv u v)).1.dropped = s.dropped := by
+        simp only [step]
+        rcases recv_cases cfg s u v with ⟨hn, _⟩ | ⟨_, _, e⟩ | ⟨_, _, _, e⟩ | ⟨_, _, _, _, e⟩ |
+          ⟨_, _, _, e⟩
         · exact absurd hmem hn
-        all_goals (rw [e]; intro h; cases h)
-      have hd := mu_decreases hw hi l he
-      obtain ⟨sched, hlen, hq⟩ := ih _ (inv_recv l hi) (by omega)
-      exact ⟨l :: sched, by simp only [List.length_cons]; omega, by
-        simpa [Machine.exec, List.foldl] using hq⟩
+        all_goals (rw [e]; exact ⟨rfl, rfl⟩)
+      have hd := mu_decreases hw hi (.recv u v) hstep.1
+      obtain ⟨sched, hlen, hq, hq2, hq3⟩ := ih _ (inv_step (.recv u v) hi) (by omega)
+      exact ⟨.recv u v :: sched, by simp only [List.length_cons]; omega,
+        by simpa [Machine.exec, List.foldl] using hq,
+        by simpa [Machine.exec, List.foldl] using hq2,
+        by simpa [Machine.exec, List.foldl, hstep.2] using hq3⟩
 
 /-! ## the executable Spec accepts the model -/
 
@@ -151,37 +273,100 @@ theorem nodupB_iff (l : List Node) : nodupB l = true ↔ l.Nodup := by
   | nil => simp [nodupB]
   | cons a l ih => simp [nodupB, ih, List.nodup_cons]
 
-theorem specRecv_model {cfg : Cfg} {s : State} (hi : Inv cfg s) (l : Node × Node) :
-    specRecv cfg (s.delivered.map Prod.fst) l.1 l.2 (recv cfg s l).2 = none ∧
-    ((recv cfg s l).1.delivered.map Prod.fst
-      = gotAfter (s.delivered.map Prod.fst) l.2 (recv cfg s l).2) := by
-  obtain ⟨u, v⟩ := l
-  rcases recv_cases cfg s u v with ⟨_, e⟩ | ⟨_, _, e⟩ | ⟨_, _, _, e⟩ | ⟨hf, _, hns, e⟩
-  · rw [e]; simp [specRecv, gotAfter]
-  · rw [e]; simp [specRecv, gotAfter]
-  · rw [e]; simp [specRecv, gotAfter]
-  · rw [e]
-    have hvp : v ≠ cfg.pub := fun hv => hns (hv ▸ hi.pub_seen)
-    have hvd : v ∉ s.delivered.map Prod.fst := fun hv => hns (hi.del_seen v hv)
-    have hu : u ∉ recipients cfg v u := fun h => (mem_recipients.1 h).2.1 rfl
-    have hsx : ∀ x, cfg.source = some x → x ∉ recipients cfg v u :=
-      fun x hx h => (mem_recipients.1 h).2.2 hx.symm
-    refine ⟨?_, by simp [gotAfter]⟩
-    simp only [specRecv]
-    rw [if_neg (by simpa using hvd), if_neg (by simpa using hvp), if_neg (by simpa using hu)]
-    cases hsrc : cfg.source with
-    | none => simp
-    | some x => simpa using hsx x hsrc
+theorem echoes_false {rc : List (Node × Node)} {v : Node} {r : List Node}
+    (h : ∀ w ∈ r, (v, w) ∉ rc) : echoes rc v r = false := by
+  unfold echoes
+  rw [List.any_eq_false]
+  intro w hw
+  simpa using h w hw
 
-theorem monitor_model {cfg : Cfg} (sched : List (Node × Node)) :
-    ∀ s, Inv cfg s → monitor cfg (trace cfg s sched) (s.delivered.map Prod.fst) = none := by
+theorem toSource_false {cfg : Cfg} {r : List Node}
+    (h : ∀ x, cfg.source = some x → x ∉ r) : toSource cfg r = false := by
+  unfold toSource
+  cases hs : cfg.source with
+  | none => rfl
+  | some x => simpa using h x hs
+
+/-- the monitor state that corresponds to a model state -/
+def monOf (s : State) : Mon := { got := s.delivered.map Prod.fst, rc := rcvdOf s.hist }
+
+theorem specStep_model {cfg : Cfg} {s : State} (hn : NoSelf cfg) (hi : Inv cfg s)
+    (he : Echo cfg s) (op : Op) :
+    specStep cfg (monOf s) op (step cfg s op).2 = none ∧
+    monOf (step cfg s op).1 = monAfter (monOf s) op (step cfg s op).2 := by
+  cases op with
+  | recv u v =>
+    simp only [step, specStep]
+    rcases recv_cases cfg s u v with ⟨_, e⟩ | ⟨_, _, e⟩ | ⟨_, _, _, e⟩ | ⟨hf, hcond, hns, _, e⟩ |
+      ⟨hf, hcond, hns, e⟩
+    · rw [e]; simp [specRecv, monAfter]
+    · rw [e]; simp [specRecv, monAfter, monOf, rcvdOf_append, rcvdOf]
+    · rw [e]; simp [specRecv, monAfter, monOf, rcvdOf_append, rcvdOf]
+    · rw [e]
+      have hvp : v ≠ cfg.pub := fun hv => hns (hv ▸ hi.pub_seen)
+      have hvd : v ∉ s.delivered.map Prod.fst := fun hv => hns (hi.del_seen v hv)
+      have hgot : (monOf s).got.contains v = false := by simpa [monOf] using hvd
+      have hpub : (v == cfg.pub) = false := by simpa using hvp
+      refine ⟨?_, by simp [monAfter, monOf, rcvdOf_append, rcvdOf]⟩
+      simp only [specRecv]
+      rw [if_neg (by rw [hgot]; simp), if_neg (by rw [hpub]; simp)]
+    · rw [e]
+      have hvp : v ≠ cfg.pub := fun hv => hns (hv ▸ hi.pub_seen)
+      have hvd : v ∉ s.delivered.map Prod.fst := fun hv => hns (hi.del_seen v hv)
+      have huv : u ≠ v := hi.flight_ne hn hf
+      have hsv : cfg.source ≠ some v := fun hs => hcond ⟨hs, huv⟩
+      have hec : echoes (rcvdOf s.hist ++ [(v, u)]) v (recipients cfg v u) = false := by
+        apply echoes_false
+        intro w hw hm
+        rcases List.mem_append.1 hm with hm | hm
+        · exact hsv (he.unseen_rc v w hm hns)
+        · simp only [List.mem_singleton] at hm
+          exact (mem_recipients.1 hw).2.1 (Prod.mk.inj hm).2
+      have hts : toSource cfg (recipients cfg v u) = false :=
+        toSource_false fun x hx h => (mem_recipients.1 h).2.2 hx.symm
+      have hgot : (monOf s).got.contains v = false := by simpa [monOf] using hvd
+      have hpub : (v == cfg.pub) = false := by simpa using hvp
+      have hec' : echoes ((monOf s).rc ++ [(v, u)]) v (recipients cfg v u) = false := hec
+      refine ⟨?_, by simp [monAfter, monOf, rcvdOf_append, rcvdOf, rcvdOf_sends]⟩
+      simp only [specRecv]
+      rw [if_neg (by rw [hgot]; simp), if_neg (by rw [hpub]; simp),
+        if_neg (by rw [hec']; simp), if_neg (by rw [hts]; simp)]
+  | verdict v a =>
+    simp only [step, specStep]
+    rcases verdict_cases cfg s v a with ⟨_, e⟩ | ⟨u, orig, hl, _, e⟩ | ⟨u, orig, _, _, e⟩
+    · rw [e]; simp [specVerdict, monAfter]
+    · rw [e]
+      have hm := lookup_mem hl
+      have hec : echoes (rcvdOf s.hist) v (recipientsV cfg v u orig) = false := by
+        apply echoes_false
+        intro w hw hrc
+        have hx := mem_recipientsV.1 hw
+        rcases he.held_rc v u orig hm w hrc with h1 | h1
+        · exact hx.2.1 h1
+        · exact hx.2.2.2 h1
+      have hts : toSource cfg (recipientsV cfg v u orig) = false :=
+        toSource_false fun x hx h => (mem_recipientsV.1 h).2.2.1 hx.symm
+      refine ⟨?_, by simp [monAfter, monOf, rcvdOf_append, rcvdOf_sends]⟩
+      have hec' : echoes (monOf s).rc v (recipientsV cfg v u orig) = false := hec
+      simp only [specVerdict]
+      rw [if_neg (by rw [hec']; simp), if_neg (by rw [hts]; simp)]
+    · rw [e]; simp [specVerdict, monAfter, monOf]
+
+theorem echo_step {cfg : Cfg} {s : State} (hn : NoSelf cfg) (op : Op) (hi : Inv cfg s)
+    (he : Echo cfg s) : Echo cfg (step cfg s op).1 := by
+  cases op with
+  | recv u v => exact echo_recv hn (u, v) hi he
+  | verdict v a => exact echo_verdict v a he
+
+theorem monitor_model {cfg : Cfg} (hn : NoSelf cfg) (sched : List Op) :
+    ∀ s, Inv cfg s → Echo cfg s → monitor cfg (trace cfg s sched) (monOf s) = none := by
   induction sched with
-  | nil => intro s _; simp [trace, monitor]
-  | cons l rest ih =>
-    intro s hi
-    obtain ⟨h1, h2⟩ := specRecv_model hi l
+  | nil => intro s _ _; simp [trace, monitor]
+  | cons op rest ih =>
+    intro s hi he
+    obtain ⟨h1, h2⟩ := specStep_model hn hi he op
     simp only [trace, monitor, h1]
     rw [← h2]
-    exact ih _ (inv_recv l hi)
+    exact ih _ (inv_step op hi) (echo_step hn op hi he)
 
 end C27
